@@ -778,7 +778,11 @@ pub fn reentrant_callbacks(rounds: u64) -> LiveResult {
                 if i >= 120 {
                     return;
                 }
-                let _ = c2.insert(hot, 5000 + i, 1);
+                // more updates in a row than the insert buffer (4) holds: nobody drains it while the processor's
+                // thread is in here, so an update that waited for room would wait for ever
+                for j in 0..6u64 {
+                    let _ = c2.insert(hot, 5000 + i * 8 + j, 1);
+                }
                 let _ = c2.insert(mk_key(100 + i % 50, 0), i, 1);
                 let _ = c2.get(&hot).map(|v| *v.value());
                 let _ = c2.len();
